@@ -102,17 +102,26 @@ def make_ids(sess, suite, n, kind, gate=EXACT):
             seen.add(h)
             out.append(h)
 
+    def idnat(v):
+        # Identifier::try_from(u16): the scalar v itself (every bit of the integer counts)
+        r = sess.call("idnat %s n=%d" % (suite, v), gate, "idnat")
+        if v % fld.q != 0:
+            sess.oracle(r.ok and r["v"] == fld.enc(v % fld.q), "the identifier made from the integer %d is not the scalar %d (%s)" % (v, v, r.raw[:80]), [sess.records[-1][0]])
+        return r
+
     if kind == "default":
         for i in range(1, n + 1):
-            add(sess.call("idnat %s n=%d" % (suite, i), gate, "idnat")["v"])
+            add(idnat(i)["v"])
         return out
     if kind == "extreme":
         for v in [1, 65535, 2, 65534, 255, 256, 32768, 257]:
             if len(out) < n:
-                add(sess.call("idnat %s n=%d" % (suite, v), gate, "idnat")["v"])
+                r = idnat(v)
+                if r.ok:
+                    add(r["v"])
     while len(out) < n:
         if kind in ("u16", "extreme"):
-            r = sess.call("idnat %s n=%d" % (suite, rng.randrange(1, 65536)), gate, "idnat")
+            r = idnat(rng.randrange(1, 65536))
         elif kind == "derived":
             r = sess.call("derive %s s=%s" % (suite, rng.randbytes(rng.randrange(0, 12)).hex()), gate, "derive")
         else:
